@@ -2,15 +2,33 @@
    iteration order of the real HashMaps), what StateDigest::from_state / differs_from /
    divergent_buckets / get_keys_in_buckets returned for them, the two states after one
    MultiNodeSimulation::run_anti_entropy_sync (again in iteration order) and their
-   digests.  The model, run with h := sip13f (= sip13, Lib/SipHashFast.v), must reproduce
-   every number. *)
+   digests.  The model must reproduce every number, run with h := sip13i (SipHash-1-3 on
+   primitive 63-bit integers, Lib/SipHashInt.v: fast, not proved equal to sip13) and, on
+   small states, also with h := sip13f (= sip13 of Lib/SipHash.v, proved).  The theorems of
+   Props/C18.v hold for every h. *)
 From stdpp Require Import gmap.
 From Coq Require Import NArith String.
-From RV Require Export Lib.Hex Lib.SipHash Lib.SipHashFast Model.Crdt Model.Digest Corr.Common Corr.C07.
+From RV Require Export Lib.Hex Lib.SipHash Lib.SipHashFast Lib.SipHashInt Model.Crdt Model.Digest Corr.Common Corr.C07.
 
-(* implementation digest: root_hash, key_count, max_timestamp, buckets (hash,count,max) *)
-Definition G (root cnt mx : N) (bs : list (N * N * N)) : sdigest :=
-  SD root cnt mx (map (λ t, Node t.1.1 t.1.2 t.2) bs).
+(* implementation digest: root_hash, key_count, max_timestamp, number of buckets, and
+   (index, hash, count, max) of every bucket that is not MerkleNode::empty() *)
+Fixpoint expand (n : nat) (i : N) (bs : list (N * N * N * N)) : list node :=
+  match n with
+  | O => []
+  | S n' =>
+      match bs with
+      | (j, hsh, c, m) :: r =>
+          if (j =? i)%N then Node hsh c m :: expand n' (i + 1)%N r
+          else node_empty :: expand n' (i + 1)%N bs
+      | [] => node_empty :: expand n' (i + 1)%N []
+      end
+  end.
+Definition G (root cnt mx nb : N) (bs : list (N * N * N * N)) : sdigest :=
+  SD root cnt mx (expand (N.to_nat nb) 0%N bs).
+
+(* a plain LWW register stamped like its wrapper *)
+Definition VL (v : option string) (t r : N) (tomb : bool) : rvalue :=
+  V (cl (L v t r tomb)) None None t r None.
 
 Notation st18 := (list (string * rvalue)) (only parsing).
 Definition ents (l : list (string * rvalue)) : list (list N * rvalue) :=
@@ -35,7 +53,7 @@ Definition deq (a b : sdigest) : bool := bool_decide (a = b).
 (* [sync_round] is, by definition, [sync_exchange] on the two [from_state] digests followed
    by [apply_deltas]; the check evaluates these constituents once and compares each
    intermediate result with the implementation's. *)
-Definition hh := sip13f.
+Definition hh := sip13i.
 Definition check18 (k : case18) : bool :=
   match k with
   | KP depth la =>
@@ -61,7 +79,11 @@ Definition check18 (k : case18) : bool :=
           negb fired && meq A (list_to_map (ents la2)) && meq B (list_to_map (ents lb2))
       end &&
       deq (from_state hh depth (ents la2)) da2 &&
-      deq (from_state hh depth (ents lb2)) db2
+      deq (from_state hh depth (ents lb2)) db2 &&
+      (* on small states also with the N-based SipHash of Lib/SipHash.v (sip13f = sip13, proved) *)
+      (if (List.length la + List.length lb <=? 4)%nat
+       then deq (from_state sip13f depth ea) da && deq (from_state sip13f depth eb) db
+       else true)
   end.
 
 Lemma sync_round_unfold h depth limit la lb :
